@@ -1,5 +1,6 @@
 import ZapVerif.Model.Writers
 import ZapVerif.Proofs.Merge
+import ZapVerif.Gen.Delegates
 /-! # C13 — zap's writers and WriteSyncer combinators honour the io.Writer contract -/
 namespace ZapVerif.C13
 open ZapVerif ZapVerif.Writers
@@ -94,6 +95,18 @@ theorem addsync_adds_nop (o : Out) (se : Bool) : addSync false o se = (o.n, o.er
 
 /-- Lock relays results unchanged and does not layer a second lock -/
 theorem lock_relays (o : Out) (se : Bool) : lock o se = (o.n, o.err, se, true) := rfl
+
+/-- the lock-protected wrappers (`zapcore.Lock`'s lockedWriteSyncer, BufferedWriteSyncer) call into the wrapped, not
+    concurrency-safe WriteSyncer / bufio.Writer ONLY while holding their mutex — every call site of today's source
+    (regenerated table Gen/Delegates; helpers that do not lock are guarded iff all their callers hold the lock) -/
+theorem lock_delegate_calls_guarded : Gen.Delegates.rows.all (fun r => r.2.2.2.2.1) = true := by decide
+
+/-- … and the table is not vacuous: both Write and Sync of each wrapper reach the wrapped object through such a site -/
+theorem lock_delegate_surface :
+    (["Write", "Sync"].all fun m => Gen.Delegates.rows.any fun r => r.1 == "lockedWriteSyncer" && r.2.1 == m && r.2.2.1 == "ws") = true ∧
+    (Gen.Delegates.rows.any fun r => r.1 == "BufferedWriteSyncer" && r.2.2.1 == "WS" && r.2.2.2.1 == "Sync") = true ∧
+    (Gen.Delegates.rows.any fun r => r.1 == "BufferedWriteSyncer" && r.2.2.1 == "writer" && r.2.2.2.1 == "Write") = true ∧
+    (Gen.Delegates.rows.any fun r => r.1 == "BufferedWriteSyncer" && r.2.2.1 == "writer" && r.2.2.2.1 == "Flush") = true := by decide
 
 /-- Lock makes writes mutually exclusive: under any schedule the sink holds whole writes in
     acquisition order whenever the mutex is free (instance of the C04 machine) -/
